@@ -2925,7 +2925,9 @@ func (c *Conn) sessionKey() []byte {
 		// As ServerName can be like 0.example.com, it's better to add
 		// delimiter character which is not allowed to be in
 		// neither address or domain name.
-		return []byte(c.rAddr.String() + "_" + c.handshakeConfig.ServerName)
+		// The name is the one the server certificate was verified for, which
+		// differs from the SNI value (ServerName) for IP literals.
+		return []byte(c.rAddr.String() + "_" + c.handshakeConfig.ServerNameForVerification())
 	}
 
 	return common.SessionID
